@@ -1,4 +1,5 @@
 import BtcwVerif.Model.CoinSelect
+import BtcwVerif.Gen.CreateTxSitesGen
 /-!
 # C06 — created transactions spend only eligible own coins, once; ineligible explicit selections are refused
 
@@ -394,6 +395,22 @@ accepted one being published before the next request, spend pairwise disjoint se
 theorem C06_no_reuse_seq (V : View) (steps : List (Request × List Coin)) (hV : WF V) (hok : SeqOk V steps) :
     (sendSeq V steps).Pairwise (fun a b => ∀ c₁ ∈ a.ins, ∀ c₂ ∈ b.ins, c₁.op ≠ c₂.op) :=
   (sendSeq_avoids steps V [] hV hok (by intro o ho; cases ho)).2
+
+/-! ## Serialisation of coin selection (facts regenerated from wallet/*.go on every run)
+
+`sendSeq` answers one request after the other.  In the Go code this is what the `createTxRequests` channel provides;
+the structure it relies on is extracted from the current source and checked here: `CreateSimpleTx` is the only
+sender, `txCreator` the only receiver and the only caller of `txToOutputs` (not from a nested goroutine or closure),
+it is started exactly once (by `Start`), and `findEligibleOutputs` is only reached through `txToOutputs`. -/
+
+theorem C06_generated_serialised :
+    CreateTxSitesGen.txToOutputsCallers = ["txCreator"] ∧
+    CreateTxSitesGen.requestReceivers = ["txCreator"] ∧
+    CreateTxSitesGen.requestSenders = ["CreateSimpleTx"] ∧
+    CreateTxSitesGen.txCreatorSpawns = 1 ∧
+    CreateTxSitesGen.txCreatorSpawners = ["Start"] ∧
+    CreateTxSitesGen.txCreatorCallsInGo = false ∧
+    CreateTxSitesGen.findEligibleCallers = ["txToOutputs"] := by decide
 
 /-! ## The fuel bound of the author loop is not a truncation -/
 
